@@ -627,7 +627,7 @@ def render_script(ru, sp, us, rich=True, explicit_p=0.25):
     return kw
 
 
-def sibling_spec(rs, spec, p=None):
+def sibling_spec(rs, spec, p=None, nr_delta=0):
     """same species labels, environments and space, same NUMBER of reactions, but re-drawn stoichiometry and constants
     (and state): what a second set-up on the same engine object with a related model looks like"""
     import copy
@@ -638,7 +638,7 @@ def sibling_spec(rs, spec, p=None):
     m = Model(spec)
     vtyp = float(m.V.mean())
     ntyp = max(1.0, float(abs(m.x0).mean()))
-    s["reactions"] = draw_reactions(rs, labels, nenv, ntyp / vtyp, p, len(spec["reactions"]))
+    s["reactions"] = draw_reactions(rs, labels, nenv, ntyp / vtyp, p, max(0, len(spec["reactions"]) + nr_delta))
     if s["space"]["type"] == "grid" and rs.chance(0.6):
         # same shape, other boundary conditions (what a table cached by shape alone would get wrong)
         k = rs.randint(0, 2)
